@@ -170,6 +170,9 @@ func Shrink(raw json.RawMessage) []json.RawMessage {
 				return true
 			})
 		}
+		if sc.Pkgs[pi].BlankMeta {
+			emit(func(c *Scenario) bool { c.Pkgs[pi].BlankMeta = false; return true })
+		}
 		if sc.Pkgs[pi].Commit != "" {
 			emit(func(c *Scenario) bool { c.Pkgs[pi].Commit = ""; c.Pkgs[pi].Msg = ""; return true })
 		}
